@@ -240,6 +240,36 @@ fn main() {
         let (o0, o1) = (zv::run_bin(&plain, None, &[], None), zv::run_bin(&with, None, &[], None));
         if o0.status != 0 || o1.status != 0 || o1.stdout_str() != format!("{px}{}", o0.stdout_str()) { ctx.violation("prefix_not_verbatim_binary", format!("{with:?}"), json!({"kind":"proc"}), format!("plain {:?} with prefix {:?}", o0.stdout_str(), o1.stdout_str())); }
     }
+    let mut s5 = Stats::default();
+    // git source through the real binary, incl. a shallow repository (a .git/shallow boundary between the tag and the root,
+    // HEAD ahead of the tag), a detached HEAD and a dirty tree: stdout is exactly one well-formed line, also with -v
+    {
+        use zvharness::gitx::{self, DateMode, Head, Repo, Shape, Tag, WorkTree};
+        let root = gitx::scratch_root().join("c01git");
+        let _ = std::fs::create_dir_all(&root);
+        let shape = Shape { parents: vec![vec![], vec![0], vec![1], vec![2]], branches: [("main".to_string(), 3)].into_iter().collect(), cur: "main".into(), ops: vec![] };
+        for (name, shallow_at, head, wt) in [("full", None, Head::Branch("main".into()), WorkTree::Clean), ("shallow-ahead", Some(1usize), Head::Branch("main".into()), WorkTree::Clean), ("shallow-at-tag", Some(2), Head::Detached(2), WorkTree::Clean), ("shallow-dirty", Some(1), Head::Branch("main".into()), WorkTree::Untracked)] {
+            let mut repo = Repo::create(&root, name, &shape, &gitx::dates(4, DateMode::Increasing));
+            repo.set_tags(&[Tag { name: "v1.2.3".into(), target: 2, annotated: false }, Tag { name: "v1.0.0".into(), target: 1, annotated: true }]);
+            repo.set_head(&head);
+            repo.set_worktree(wt, "f0");
+            if let Some(c) = shallow_at { std::fs::write(repo.dir.join(".git/shallow"), format!("{}\n", repo.shas[c])).unwrap(); }
+            let dir = repo.dir.to_string_lossy().to_string();
+            for sub in ["version", "flow"] { for fmt in ["semver", "pep440"] { for verbose in [false, true] {
+                let mut args: Vec<String> = if verbose { vec!["-v".into()] } else { vec![] };
+                args.extend([sub, "-C", &dir, "--output-format", fmt].iter().map(|s| s.to_string()));
+                let o = zv::run_bin(&args, None, &[], None);
+                s5.inc("process_conformance_cases"); s5.inc("git_source_runs");
+                let out = o.stdout_str();
+                let key = format!("[{name}] {}", args.join(" "));
+                if o.status != 0 { ctx.violation("git_source_failed", key, json!({"kind":"git","repo":name}), truncate(&o.stderr_str(), 200)); continue; }
+                if out.matches('\n').count() != 1 || !out.ends_with('\n') { ctx.violation("stdout_not_exactly_one_line", key, json!({"kind":"git","repo":name}), format!("stdout {:?}", truncate(&out, 200))); continue; }
+                if let Some(why) = malformed(fmt, out.trim_end_matches('\n')) { ctx.violation(&format!("{fmt}_malformed"), key, json!({"kind":"git","repo":name}), format!("emitted {out:?}: {why}")); }
+            }}}
+            repo.remove();
+        }
+        let _ = std::fs::remove_dir_all(&root);
+    }
     // binary slice: exactly one line on stdout
     let slice: Vec<&(Vec<String>, Option<String>, &str, &str)> = cli_jobs.iter().step_by((cli_jobs.len() / 150).max(1)).collect();
     let bad: Vec<(String, String)> = slice.par_iter().filter_map(|(args, stdin, _fmt, _p)| {
@@ -256,7 +286,6 @@ fn main() {
         }
         errs.map(|e| (format!("{args:?}"), e))
     }).collect();
-    let mut s5 = Stats::default();
     s5.add("process_conformance_cases", slice.len() as u64);
     for (k, e) in bad { ctx.violation("binary_differs_from_inprocess", k, json!({"kind":"proc"}), e); }
 
